@@ -110,7 +110,7 @@ def spaces(tier, seed):
                                                                "%a %d %b %Y %I:%M:%S %p", "%B %d, %Y", "%Y%m%d %H:%M")],
                               "ord": range(cal.ordinal(1900, 1, 1), cal.ordinal(2100, 12, 31) + 1), "pref": [0], "now": [0]},
                 note="every day 1900-01-01..2100-12-31"),
-        Product("localized-month-names", {"ln": range(len(lang_names())), "lf": ["%d %B %Y", "%B %d, %Y %H:%M", "%B %Y"], "d": [1, 15, 28],
+        Product("localized-month-names", {"ln": range(len(lang_names())), "lf": ["%d %B %Y", "%B %d, %Y %H:%M", "%B %Y", "%y %B %d", "%d-%B-%y %H:%M"], "d": [1, 15, 28],
                                           "pref": [1, 2], "now": [0]}),
         Listed("format-beats-heuristics", [{"s": s, "f": f, "exp": e} for s, f, e in [
             ("01-02-03", "%y-%m-%d", datetime(2001, 2, 3)), ("01-02-03", "%d-%m-%y", datetime(2003, 2, 1)),
